@@ -161,7 +161,7 @@ Proof. vm_compute. reflexivity. Qed.
 
 (* overlap: two inputs, the docstring example; consumption after each group *)
 Definition iv (i s e : Z) : orec :=
-  {| rid := i; rtruthy := true; rtumor := []; rnormal := []; rchr := [99%N]; rstart := s; rend := e;
+  {| rid := i; rtruthy := true; rtumor := Some []; rnormal := Some []; rchr := [99%N]; rstart := s; rend := e;
      oref := []; oalts := [] |}.
 Definition demo_cfg : cfg := {| by_barcodes := false; contigs := [] |}.
 Definition demo_inputs := [[iv 0 1 10; iv 1 15 15; iv 2 30 40]; [iv 3 5 25; iv 4 50 60]].
@@ -174,4 +174,20 @@ Example demo_overlap_consumption :
      match o1 with Done g => map (map rid) g | _ => [] end)
   | Raise _ => ([], [], [], [])
   end = ([1; 1]%nat, [3; 2]%nat, [3; 2]%nat, [[0; 1]; [3]]).
+Proof. vm_compute. reflexivity. Qed.
+
+(* Scope of the overlap clause: the theorems above are about
+   LocatableOverlapIterator (next_group).  They do NOT extend to
+   LocatableByAlleleOverlapIterator as written: one call of its __next__ pulls
+   and discards every positional group that has nothing from the first input.
+   Here the first call returns the group {0 | 4} having pulled all five records
+   of the second input, four more than it has emitted from it. *)
+Example demo_allele_subclass_pulls_whole_groups :
+  match o_init demo_cfg [[iv 0 100 101]; [iv 1 1 1; iv 2 5 5; iv 3 9 9; iv 4 100 100; iv 5 200 200]] with
+  | Ok i0 =>
+    let '(st, o) := o_allele_next demo_cfg Equality {| a_ins := i0; a_items := None; a_others := [] |} in
+    (map consumed i0, map consumed (a_ins st),
+     match o with Done g => map (map rid) g | _ => [] end)
+  | Raise _ => ([], [], [])
+  end = ([1; 1]%nat, [1; 5]%nat, [[0]; [4]]).
 Proof. vm_compute. reflexivity. Qed.
